@@ -49,8 +49,11 @@ class Hist:
         if T is ops.ExtOp:
             d = op.op_def()
             pf = d.signature.poly_func
-            e = d._extension
-            return gapp("OExtOp", g.gname(e.name if e else ""), g.gname(d.name),
+            try:
+                ename = d.get_extension().name
+            except Exception:                                # noqa: BLE001 -- a definition outside any extension
+                ename = ""
+            return gapp("OExtOp", g.gname(ename), g.gname(d.name),
                         gopt(None if pf is None else g.print_poly(pf)),
                         gopt(None if op.signature is None else g.print_functy(op.signature)), args(op.args))
         if T is ops.MakeTuple:
@@ -62,7 +65,8 @@ class Hist:
         if T in (ops.Tag, ops.Some, ops.Left, ops.Right, ops.Continue, ops.Break):
             return gapp("OTag", gZ(op.tag), g.print_type(op.sum_ty))
         if T is ops.DFG:
-            return gapp("ODFG", row(op.inputs), orow(lambda: op.outputs), g.gnames(list(op._extension_delta)))
+            # the extension delta (a private field) only flows into the signature's requirements: not compared
+            return gapp("ODFG", row(op.inputs), orow(lambda: op.outputs), g.gnames([]))
         if T is ops.CFG:
             return gapp("OCFG", row(op.inputs), orow(lambda: op.outputs))
         if T is ops.DataflowBlock:
@@ -90,7 +94,7 @@ class Hist:
             return "OModule"
         if T in (ops.Call, ops.LoadFunc):
             return gapp("OCall" if T is ops.Call else "OLoadFunc", g.print_poly(op.signature),
-                        g.print_functy(op.instantiation), args(op.type_args))
+                        g.print_functy(op.instantiation), args(getattr(op, "type_args", ())))
         if T is ops.CallIndirect:
             s = opt(lambda: op.signature)
             return gapp("OCallIndirect", gopt(None if s is None else g.print_functy(s)))
@@ -114,7 +118,11 @@ class Hist:
                 w = max(w, len(v.input) + 1, len(v.output))
             elif isinstance(v, tys.Sum):
                 w = max([w] + [len(r) + 1 for r in v.variant_rows])
-        for v in list(vars(op).values()):
+        try:
+            held = list(vars(op).values())
+        except TypeError:                                    # no instance dict: a default width
+            return 3
+        for v in held:
             see(v)
             if isinstance(v, tys.PolyFuncType):
                 see(v.body)
@@ -162,9 +170,9 @@ class Hist:
                 for z in zs:
                     port = (InPort if d == "in" else OutPort)(n, z)
                     k = P.guard(lambda: h[n].op.port_kind(port), P.pr_kind)
-                    t = P.guard(lambda: h[n].op.port_type(port), g.print_type)
+                    t = P.guard(lambda: h[n].op.port_type(port), P.pr_otype)
                     hk = P.guard(lambda: h.port_kind(port), P.pr_kind)
-                    ht = P.guard(lambda: h.port_type(port), lambda v: gopt(None if v is None else g.print_type(v)))
+                    ht = P.guard(lambda: h.port_type(port), P.pr_otype)
                     events.append(["port", idx, d, z, k, t, hk, ht])
             if not full:
                 return
@@ -332,7 +340,8 @@ class Hist:
                 out.append(gapp("HDel", gZ(e[1])))
             elif e[0] == "port":
                 out.append(gapp("HPort", gZ(e[1]), "In" if e[2] == "in" else "Out", gZ(e[3]), P.gres(e[4], pk),
-                                P.gres(e[5], POISON), P.gres(e[6], pk), P.gres(e[7], gapp("Some", POISON))))
+                                P.gres(e[5], gapp("Some", POISON)), P.gres(e[6], pk),
+                                P.gres(e[7], gapp("Some", POISON))))
             else:
                 out.append(gapp("HSig", gZ(e[1]), P.gres(e[2], psig), P.gres(e[3], psig), P.gres(e[4], "(-7)%Z")))
         return gapp("CHist", glist(out))
